@@ -223,6 +223,29 @@ def compare_eval(rec: Dict[str, Any], tbl: "DocTable", *, styles: Sequence[int],
                         avals = _drive(path.findall_async(doc, **kw))
                         if len(avals) != len(ms) or any(a is not m.obj for a, m in zip(avals, ms)):
                             disc = "async-twin-selects-other-nodes"
+                        elif d % 4 == 1 and isinstance(doc, (list, dict)):
+                            # the document as JSON text: evaluated, what came back edited by the caller, evaluated again
+                            tdoc = json.dumps(doc)
+                            want = [canon_plain(m.obj) for m in ms]
+                            first = path.findall(tdoc, **kw)
+                            for v in first:
+                                if isinstance(v, list):
+                                    v.append("edited-by-caller")
+                                elif isinstance(v, dict):
+                                    v["edited-by-caller"] = True
+                            if [canon_plain(v) for v in path.findall(tdoc, **kw)] != want:
+                                disc = "second-evaluation-of-the-same-json-text-differs"
+                        elif d % 4 == 2 and env is None:
+                            # one environment object whose options are changed between two uses of the same text
+                            e2 = jsonpath.JSONPathEnvironment(unicode_escape=False, filter_caching=False)
+                            try:
+                                e2.findall(text, doc, **kw)
+                            except Exception:  # noqa: BLE001
+                                pass
+                            e2.unicode_escape, e2.filter_caching = True, True
+                            v2 = e2.findall(text, doc, **kw)
+                            if len(v2) != len(ms) or any(a is not m.obj for a, m in zip(v2, ms)):
+                                disc = "environment-remembers-the-text-from-before-its-options-changed"
                 except BaseException as ex:  # noqa: BLE001
                     disc = f"evaluate-raised-{exc_family(ex)}"
                     obs = []
@@ -243,6 +266,11 @@ def compare_eval(rec: Dict[str, Any], tbl: "DocTable", *, styles: Sequence[int],
                                    "expected": [list(loc_to_parts_k(l)) for l in exp][:40], "observed": [list(loc_to_parts_k(l)) for l in obs][:40],
                                    "tagged": rec}, disc)]
     return []
+
+
+def canon_plain(v: Any) -> str:
+    """A JSON value as text that separates true from 1 (for comparing values that are not the same objects)."""
+    return json.dumps(v, sort_keys=True, default=str) + ("|bool" if isinstance(v, bool) else "")
 
 
 def _drive(coro: Any) -> Any:
